@@ -249,14 +249,120 @@ func c15SeamScenario(c *choice.Ctx, rep *report.R, depth int) {
 	rep.State(seam + strings.Join(trace, ","))
 }
 
+// c15LatencyScenario: the per-subnet bound with an upstream that takes time to answer. One subnet sends paced queries (distinct
+// names, every 4th a repeat that is served from the cache) for 4 s while every upstream reply is delivered after a fixed latency;
+// whatever is booked when (at arrival, before or after the upstream exchange), the admitted queries x the listener's cost per
+// query never exceed burst + rate x window over any window.
+func c15LatencyScenario(c *choice.Ctx, rep *report.R) {
+	own := env.InstallOwn(0xA5, vRace)
+	defer env.UninstallOwn()
+	const rate = 20
+	const tick = 25 * time.Millisecond
+	latency := []time.Duration{0, 200 * time.Millisecond, 500 * time.Millisecond, 1500 * time.Millisecond}[c.Choose(4, "upstream-latency")]
+	pace := []int{1, 2, 4, 8}[c.Choose(4, "pace")] // ticks between queries
+	burstCfg := []int{0, 60}[c.Choose(2, "burst")]
+	burst := burstCfg
+	if burst == 0 {
+		burst = rate
+	}
+	desc := fmt.Sprintf("rate=%d/s burst=%d(cfg %d) upstream latency=%v one query every %v for 4s", rate, burst, burstCfg, latency, time.Duration(pace)*tick)
+	fail := func(sig, msg string) {
+		rep.Violate("C15:http:slow-upstream:"+sig, msg+"\n  "+desc, map[string]any{"Choices": c.Choices(), "Latency": true})
+	}
+	cfg := c03Config("forward")
+	cfg.Cache.MemSize = 1 << 20
+	cfg.Limiter.Client = ClientLimiterConfig{Limit: rate, Burst: burstCfg}
+	v, err := vNewRouter(cfg, "u1")
+	if err != nil {
+		fail("router-start", err.Error())
+		return
+	}
+	defer v.Close()
+	u := v.ups["u1"]
+	h := v.newHTTPHandler()
+	start := time.Now()
+	type req struct {
+		res *httpResult
+		at  time.Duration
+	}
+	var reqs []req
+	answered := 0
+	for t := 0; t < 160+int(latency/tick)+8; t++ {
+		// upstream replies that are due
+		for _, uq := range u.Pending() {
+			if uq.Msg != nil && time.Since(uq.At) >= latency {
+				uq.Reply(env.Answer(uq.Msg, 1, 60).Encode(false))
+			}
+		}
+		wait()
+		if t < 160 && t%pace == 0 {
+			i := len(reqs)
+			name := fmt.Sprintf("n%d", i)
+			if i%4 == 3 {
+				name = "n0" // a repeat: cache hit once n0 has been answered
+			}
+			q := refdns.Query(uint16(0x2000+i), refdns.N(name, "lat", "test"), 1, 1)
+			reqs = append(reqs, req{vDoHRequest(h, "POST", q.Encode(false), "127.9.9.7:999", nil), time.Since(start)})
+			wait()
+		}
+		hsleep(tick)
+		wait()
+	}
+	var admitted []time.Duration
+	refused := 0
+	for _, r := range reqs {
+		switch {
+		case !r.res.done:
+			fail("no-response", "a request got no response")
+		case r.res.status == 503:
+			refused++
+		case r.res.status == 200:
+			admitted = append(admitted, r.at)
+			answered++
+		default:
+			fail("unexpected-status", fmt.Sprint(r.res.status))
+		}
+	}
+	for j := range admitted {
+		for k := j; k < len(admitted); k++ {
+			n := k - j + 1
+			w := (admitted[k] - admitted[j]).Seconds()
+			if float64(n*costHTTPQuery) > float64(burst)+rate*w+1e-6 {
+				fail("bound-exceeded", fmt.Sprintf("%d queries (cost >= %d each) of one subnet admitted within %.3fs, bound burst + rate*window = %.1f (%d admitted, %d refused in total)", n, costHTTPQuery, w, float64(burst)+rate*w, len(admitted), refused))
+				j = len(admitted)
+				break
+			}
+		}
+	}
+	v.Close()
+	for _, x := range own.Audit() {
+		fail("ownership", x)
+	}
+	rep.Eval(desc + fmt.Sprintf("=>%d/%d", len(admitted), refused))
+	rep.State(desc)
+}
+
 func TestVerifC15Seams(t *testing.T) {
 	rep := report.New("C15 admission seams")
 	defer rep.Write()
 	depth := report.ParamInt("DEPTH", 4)
 	rep.Rule = fmt.Sprintf("E3: real router with client limiter (rate 1/s, burst {4,8,9}, default masks) and auto-answering upstream; seams {udp (real loopback sockets), tcp (real accept loop over a fake listener + per-query check), gnet (OnOpen), http}; "+
 		"all sequences of length <=%d over {query from A, query from A2 (same /24), query from B (other /24), advance 1 s}; oracle: every query is either answered (and forwarded exactly once) or refused with REFUSED / 503 / connection refusal (and not forwarded); "+
-		"the first request of a subnet is never refused; admitted queries per subnet x their minimum cost <= burst + rate*window", depth)
-	st := runExplore(t, rep, -1, func(c *choice.Ctx) { c15SeamScenario(c, rep, depth) })
-	rep.Count("executions", st.Executions)
+		"the first request of a subnet is never refused; admitted queries per subnet x their minimum cost <= burst + rate*window; "+
+		"plus (http seam, rate 20/s, burst {default, 60}): one subnet sends a query every {25,50,100,200} ms for 4 s (distinct names, every 4th a cache hit) while the upstream answers after {0, 0.2, 0.5, 1.5} s: same bound over every window", depth)
+	lat := false
+	if rp := report.ReplayFile(); rp != nil {
+		var x struct{ Latency bool }
+		rp.Decode(&x)
+		lat = x.Latency
+	}
+	if !lat {
+		st := runExplore(t, rep, -1, func(c *choice.Ctx) { c15SeamScenario(c, rep, depth) })
+		rep.Count("executions", st.Executions)
+	}
+	if lat || report.ReplayFile() == nil {
+		st := runExplore(t, rep, -1, func(c *choice.Ctx) { c15LatencyScenario(c, rep) })
+		rep.Count("executions_slow_upstream", st.Executions)
+	}
 	rep.Sample(map[string]any{"seam": "udp", "burst": 4, "events": "A:answer A2:refused B:answer +1s A:refused", "note": "an admitted UDP query costs 1 + 3 (upstream) tokens"})
 }
